@@ -5,6 +5,9 @@ VERIF = os.path.dirname(os.path.dirname(os.path.abspath(__file__)))
 props = {json.loads(l)["id"]: json.loads(l) for l in open(os.path.join(VERIF, "properties.jsonl"))}
 
 CHECKS = {
+ "C07": dict(cat="exploration", technique="stateful property-based testing against a reference model of quorum agreement (invariants over the history: monotone, append-only, quorum-backed, progress, ban)",
+   text="Generated peer populations (honest, lone deviators, two colluding groups, different vector lengths) and generated schedules of chunked BlockFilterCheckPoints messages, refresh ticks, connects, disconnects and restarts drive the real handler and finalize_check_points on a real store; after every step the stored vector may only grow, every new final value needs a quorum that agreed on all indices since the previous final one, agreement of a quorum cannot be blocked by fewer than quorum others, contradicting peers are banned.",
+   note="Peers proven via mock_prove_state; max_outbound 1..6.", ref="6/C07"),
  "C13": dict(cat="exploration", technique="property-based testing with metamorphic / relational oracles over the query API (pagination, order reversal, filter-as-predicate, grouping, capacity) plus a differential against the generating chain",
    text="For generated index contents and generated queries the answers must satisfy: paging yields every entry once in key order independent of the limit, desc = reverse(asc), a filtered answer = the unfiltered one restricted by a predicate written from the documentation, grouped = ungrouped grouped by transaction, capacity = sum of the cells + stored tip, unfiltered = the chain's live cells of all registered scripts sharing the prefix.",
    note="S2/S3 scoping; oracle predicates are re-derived from the README / ckb-indexer documentation, not from service.rs.", ref="6/C13"),
